@@ -533,3 +533,33 @@ func init() {
 		return !pinnedFunctions[name] && !core.MatchName(name, knownFunctions...) && len(callee.Blocks) <= 60
 	}
 }
+
+
+// calledOnlyFrom: g has call sites in the module, all of them in the named
+// function (or in helpers that are themselves called only from it).
+func calledOnlyFrom(w *core.World, g *ssa.Function, owner string) bool {
+	return calledOnlyFromDepth(w, g, owner, 3)
+}
+
+func calledOnlyFromDepth(w *core.World, g *ssa.Function, owner string, depth int) bool {
+	if depth == 0 {
+		return false
+	}
+	found := false
+	for _, f := range w.Funcs() {
+		for _, s := range core.Sites(f, false) {
+			if s.Callee != g {
+				continue
+			}
+			root := f
+			for root.Parent() != nil {
+				root = root.Parent()
+			}
+			if core.FuncName(root) != owner && !calledOnlyFromDepth(w, root, owner, depth-1) {
+				return false
+			}
+			found = true
+		}
+	}
+	return found
+}
